@@ -1298,6 +1298,16 @@ class Config:  # pylint: disable=too-many-instance-attributes
                     value = sensitive_mask * len(str(field_value))
                 else:
                     value = sensitive_mask
+            elif (
+                isinstance(field_value, list)
+                and field_value
+                and all(isinstance(item, Config) for item in field_value)
+            ):
+                # configurations held in a list are rendered like nested configurations (same mask)
+                value = [
+                    item.to_tree(virtual=virtual, sensitive_mask=sensitive_mask)
+                    for item in field_value
+                ]
             elif isinstance(field, Field):
                 try:
                     value = field.to_basic(self, field_value)
